@@ -211,6 +211,10 @@ func goStructDefineOwnProperty(obj *object, name string, descriptor property, th
 
 func goStructMarshalJSON(obj *object) json.Marshaler {
 	goObj := obj.value.(*goStructObject)
+	if !goObj.live() {
+		// the wrapper of a pointer field that was set to nil afterwards
+		return nil
+	}
 	goValue := reflect.Indirect(goObj.value).Interface()
 	marshaler, _ := goValue.(json.Marshaler)
 	return marshaler
